@@ -637,7 +637,7 @@ pub fn rep_case(index: usize) -> Option<Case> {
     Some(Case {
         pkg,
         what: format!("rep:{}:{}:in-{site_name}", kind.tag(), mode.tag()),
-        kind: format!("scope:{}:{}", kind.tag(), mode.tag()),
+        kind: format!("scope:{}", mode.tag()),
         detail: format!("`{}` ({}) in module {site_name}", path_roto(&full), mode.tag()),
     })
 }
